@@ -131,15 +131,17 @@ def cif_text(models, layout=0):
     lines = [cif_header(hv), "loop_"]
     lines += [f"_atom_site.{i}" for i in order]
     serial = 1
-    # loop order carries no meaning in mmCIF: multi-model entries are written
-    # with the polymer atoms of all models first and the hetero atoms of all
-    # models afterwards (the rows of one model are NOT contiguous)
-    rows = []
+    # the rows of one model need not be contiguous in the loop: multi-model
+    # entries are written interleaved (first row of every model, second row
+    # of every model, ...), which keeps the order of the rows of each model
+    per_model = []
     for mi, atoms in enumerate(models, start=MODEL0 if len(models) > 1 else 1):
-        for a in atoms:
-            rows.append((0 if a["record"] == "ATOM" or len(models) == 1 else 1,
-                         mi, a))
-    rows.sort(key=lambda r: (r[0], r[1]))
+        per_model.append([(0, mi, a) for a in atoms])
+    rows = []
+    for k in range(max(len(m) for m in per_model)):
+        for m in per_model:
+            if k < len(m):
+                rows.append(m[k])
     for _grp, mi, a in rows:
         if True:
             x, y, z = a["xyz"]
@@ -226,7 +228,9 @@ def make_models(structure, feats):
                 a["icode"] = "AB"[off - 1]
     if "waters" in feats:
         n = max(a["res_seq"] for a in atoms) + 50
-        atoms.append(build.water((9.0, 9.0, 9.0), n, chain="A"))
+        # one hetero record listed before the polymer, one after it (the
+        # order of the records is part of the structure: residue order)
+        atoms.insert(0, build.water((9.0, 9.0, 9.0), n, chain="A"))
         atoms.append(build.water((9.0, 13.0, 9.0), n + 1, chain="A"))
     if "charge" in feats:
         for a in atoms:
